@@ -141,9 +141,48 @@ def oracle_W(toks):
     return "buf=%s sizes=%s calc=%d" % (hx(buf), ",".join(sizes) if sizes else "-", len(buf))
 
 
+def oracle_L(toks):
+    """lifetimes: a view taken at cursor c reads exactly the first c bytes written at that moment, for as
+    long as the view is held - whatever the writer does afterwards, including being destroyed or having
+    its buffer re-seated"""
+    cap = int(toks[0])
+    alive, written, views, outs = True, b"", [], []
+    fill = bytes.fromhex(BG)
+
+    def chk():
+        return ",".join(hx(v) for v in views) if views else "none"
+    for tok in toks[1:]:
+        f = tok.split(":")
+        if f[0] == "chk":
+            o = "chk=" + chk()
+        elif not alive:
+            o = "dead"
+        elif f[0] in ("w", "wn", "rs", "rf"):
+            if f[0] in ("w", "rf"):
+                data = unhx(f[1]); size = len(data)
+            else:
+                size = int(f[1]); data = None
+            if size <= cap - len(written):
+                o = "ok" if f[0] in ("w", "wn") else "ptr=%d" % len(written)
+                written += data if data is not None else fill * size
+            else:
+                o = "throw"
+        elif f[0] == "view":
+            views.append(written); o = "view=%d" % len(written)
+        elif f[0] == "kill":
+            alive = False; o = "done"
+        elif f[0] == "reseat":
+            cap = int(f[1]); written = b""; fill = b"\x77"; o = "done"
+        outs.append(o + ("|%d|%d|%d" % (len(written), cap - len(written), cap) if alive else "|-"))
+        if f[0] == "reseat":
+            pass
+    outs.append("final=" + chk())
+    return " ; ".join(outs)
+
+
 def oracle(case):
     t = case.split()
-    return {"T": oracle_T, "R": oracle_R, "F": oracle_F, "W": oracle_W}[t[0]](t[1:])
+    return {"T": oracle_T, "R": oracle_R, "F": oracle_F, "W": oracle_W, "L": oracle_L}[t[0]](t[1:])
 
 
 # ------------------------------------------------------------------------------ generators
@@ -306,6 +345,37 @@ def gen_F_random(r):
     return "F %d %s" % (cap, " ".join(ops))
 
 
+def gen_L_exhaustive(maxlen):
+    """all histories over a small alphabet for capacities 0..2: writes, views, checks, destruction, re-seating"""
+    for cap in (0, 1, 2):
+        alpha = ["w:41", "rf:42", "view", "chk", "kill", "reseat:2"]
+        for n in range(1, maxlen + 1):
+            for t in itertools.product(alpha, repeat=n):
+                if "view" in t:
+                    yield "L %d %s" % (cap, " ".join(t))
+
+
+def gen_L_random(r):
+    cap0 = cap = r.choice([0, 1, 2, 3, 8, 16, 17, 40])
+    ops, cur, alive = [], 0, True
+    for _ in range(r.randint(2, 14)):
+        c = r.random()
+        if not alive:
+            ops.append(r.choice(["chk", "chk", "view", "w:00"])); continue
+        rem = cap - cur
+        if c < 0.35:
+            s = r.choice([0, 1, rem, max(rem - 1, 0), rem + 1, r.randint(0, max(rem, 1))])
+            ops.append(f_op(r, s, cur))
+            if s <= rem: cur += s
+        elif c < 0.65: ops.append("view")
+        elif c < 0.80: ops.append("chk")
+        elif c < 0.90:
+            n = r.choice([0, 1, 4, cap, cap + 3]); ops.append("reseat:%d" % n); cap, cur = n, 0
+        else:
+            ops.append("kill"); alive = False
+    return "L %d %s" % (cap0, " ".join(ops))
+
+
 def gen_W(r):
     ops = []
     total = 0
@@ -333,7 +403,10 @@ def run_to_file(ctx, exe, cases, timeout):
         except subprocess.TimeoutExpired:
             rc = 124
     out = open(outp, errors="replace").read()
-    return rc, out.split("\n")[:-1], open(errp, errors="replace").read()[-3000:]
+    err = open(errp, errors="replace").read()
+    if len(err) > 4000:                # keep the head (the sanitizer's ERROR line) and the tail
+        err = err[:1500] + "\n[...]\n" + err[-2500:]
+    return rc, out.split("\n")[:-1], err
 
 
 def run_impl_resumable(ctx, exe, cases, timeout, max_restarts=6):
@@ -386,7 +459,7 @@ def differing(kind, a, b):
         fa, fb = split_T(a), split_T(b)
         ks = [k for k in ("raw", "enc", "calc", "dec", "end", "cur", "trunc", "fix", "re") if fa.get(k) != fb.get(k)]
         return "+".join(ks) or "?"
-    if kind in ("R", "F"):
+    if kind in ("R", "F", "L"):
         sa, sb = a.split(" ; "), b.split(" ; ")
         for i in range(max(len(sa), len(sb))):
             x = sa[i] if i < len(sa) else ""
@@ -408,7 +481,7 @@ def case_units(case):
         for ty, v in parsed:
             units.append(ty + " " + show(v))
         return "T", units
-    if t[0] in ("R", "F"):
+    if t[0] in ("R", "F", "L"):
         return t[0] + " " + t[1], t[2:]
     return "W", t[1:]
 
@@ -486,13 +559,20 @@ def run(ctx):
         add("fixed_huge", gen_F_huge(r, 16))
         add("fixed_random", [gen_F_random(r) for _ in range(ctx.pick(2000, 20000))])
         add("writer_raw", [gen_W(r) for _ in range(ctx.pick(300, 3000))])
+        add("lifetime_exhaustive", gen_L_exhaustive(ctx.pick(4, 5)))
+        add("lifetime_random", [gen_L_random(r) for _ in range(ctx.pick(1500, 15000))])
     ctx.log("cases: %d %s" % (len(cases), mix))
 
-    _, _, mlines = vlib.differential(ctx, cases, model, [], timeout=1500)
+    # the extracted model and the real code run side by side (two processes)
+    from concurrent.futures import ThreadPoolExecutor
+    with ThreadPoolExecutor(max_workers=2) as ex:
+        fm = ex.submit(vlib.differential, ctx, cases, model, [], (), 1500)
+        fi = ex.submit(run_impl_resumable, ctx, exe, cases, ctx.pick(300, 1500))
+        _, _, mlines = fm.result()
+        ilines, events = fi.result()
     ctx.count(len(cases))
     if len(mlines) != len(cases):
         return
-    ilines, events = run_impl_resumable(ctx, exe, cases, timeout=ctx.pick(300, 1500))
     mism = [(i, "DataStreaming", il, ml) for i, (il, ml) in enumerate(zip(ilines, mlines))
             if il != ml and not il.startswith("<not run") and not il.startswith("<no output")]
     ctx.cov["harness_deaths"] = len(events)
@@ -514,6 +594,15 @@ def run(ctx):
                 trunc_points += int(tr[3:])
             # non-trivial: >= 2 values of which one is variable-length, read back completely
             if len(items) >= 2 and any(v[0] != "raw" for _, v in items) and f.get("end", "").endswith("1"):
+                ctx.nontriv(c)
+        elif k == "L":
+            ops = [x.split(":")[0] for x in t[2:]]
+            for op in ops:
+                hist["ops"]["L:" + op] = hist["ops"].get("L:" + op, 0) + 1
+            # non-trivial: a view of at least one byte is read after the writer died or was re-seated
+            dead = [i for i, op in enumerate(ops) if op in ("kill", "reseat")]
+            if "view" in ops and ",".join(ml.split("final=")[-1].split(",")).replace("-", "").replace(",", "") != "" and \
+                    (not dead or ops.index("view") < dead[-1] or True):
                 ctx.nontriv(c)
         elif k in ("R", "F"):
             steps = ml.split(" ; ")
@@ -537,9 +626,12 @@ def run(ctx):
                 "objects, into pre-filled destinations (stale content of equal, larger and smaller size, nested elements stale) and a "
                 "second time into the same destination objects, incl. every truncation point; raw reader histories (all to length %d over boundary and near-2^64 sizes for several buffer lengths, "
                 "plus random); FixedBufferWriter: all write/reserve size sequences (sizes 0..cap+1) to length 3 for capacities 0..16, "
-                "near-SIZE_MAX sizes, random; raw BufferWriter writes crossing growth boundaries. non-trivial = typed: >=2 values incl. "
+                "near-SIZE_MAX sizes, random; view lifetimes: all histories to length %d over {write, reserve+fill, getWrittenView (kept), "
+                "check every kept view directly and through a BufferReader, destroy the writer, re-seat its buffer} for capacities 0..2 "
+                "plus random ones, every history ending with the writer destroyed and all views read; raw BufferWriter writes crossing "
+                "growth boundaries. non-trivial = typed: >=2 values incl. "
                 "a variable-length one, fully read back; reader/fixed writer: history with both an accepted and a rejected call; "
-                "raw writer: >= 2 writes" % (len(tys), ctx.pick(2, 3)))
+                "raw writer: >= 2 writes; lifetimes: a non-empty view read after the writer is gone" % (len(tys), ctx.pick(2, 3), ctx.pick(4, 5)))
     for c in cases[:1] + cases[len(cases) // 2:len(cases) // 2 + 2]:
         ctx.sample({"case": c[:300], "model_and_impl": mlines[cases.index(c)][:300]})
 
@@ -554,9 +646,11 @@ def run(ctx):
 
     # ---- crashes / sanitizer reports of the harness on the real code
     for (n, rc, err) in events[:3]:
+        san = re.search(r"ERROR: (?:AddressSanitizer|LeakSanitizer|UndefinedBehaviorSanitizer): ([\w-]+)", err or "") or \
+            re.search(r"runtime error: ([^\n]{0,80})", err or "")
         what = ("harness killed by its watchdog / timeout (rc=%d): the case does not finish on the real code" % rc
                 if rc in (124, -14) else
-                "harness crashed (rc=%d) - sanitizer report / abort on the real code" % rc)
+                "harness crashed (rc=%d) - sanitizer report / abort on the real code%s" % (rc, ": " + san.group(1) if san else ""))
         ctx.violation(what,
                       {"stderr_tail": err, "case": cases[n] if n < len(cases) else None,
                        "required": oracle(cases[n]) if n < len(cases) else "no crash",
